@@ -5,6 +5,9 @@ package lib
 
 import (
 	"context"
+	"crypto/md5"
+	"encoding/hex"
+	"strconv"
 	"encoding/base32"
 	"errors"
 	"io/fs"
@@ -119,7 +122,7 @@ func ListTree(root string) string {
 				rec(p, cs)
 			} else {
 				b, _ := os.ReadFile(p)
-				ents = append(ents, "f:"+ps+"="+Hex(string(b)))
+				ents = append(ents, "f:"+ps+"="+ContentTok(string(b)))
 			}
 		}
 	}
@@ -187,18 +190,68 @@ var ShardFns = map[string]func(string, *[]string){
 	"r12": sharding.Shard_r12, "r122": sharding.Shard_r122, "r133": sharding.Shard_r133,
 }
 
-func OpenFsStore(base, shard string) (*fsstore.Store, error) {
+// HexUp is a CUSTOM escaping function (upper-case hex), as a user of fsstore.Init might pass.
+func HexUp(s string) string { return strings.ToUpper(Hex(s)) }
+
+// EscapeOf returns the escaping function of a store spec "<shard>[:hex]" (default: base32).
+func EscapeOf(spec string) func(string) string {
+	if strings.HasSuffix(spec, ":hex") {
+		return HexUp
+	}
+	return B32
+}
+
+// ShardOf strips the escaping suffix of a store spec.
+func ShardOf(spec string) string { return strings.SplitN(spec, ":", 2)[0] }
+
+// OpenFsStore opens a store for spec "<r12|r122|r133>[:hex]": "r12" alone is InitDefaults, everything
+// else goes through Init with the sharding and escaping functions named.
+func OpenFsStore(base, spec string) (*fsstore.Store, error) {
 	st := &fsstore.Store{}
-	if shard == "r12" {
+	if spec == "r12" {
 		return st, st.InitDefaults(base)
 	}
-	return st, st.Init(base, B32, ShardFns[shard])
+	return st, st.Init(base, EscapeOf(spec), ShardFns[ShardOf(spec)])
+}
+
+// ContentTok prints a block for an observation: hex up to 2048 bytes, length and MD5 above.
+func ContentTok(b string) string {
+	if len(b) <= 2048 {
+		return Hex(b)
+	}
+	sum := md5.Sum([]byte(b))
+	return "B" + strconv.Itoa(len(b)) + ":" + hex.EncodeToString(sum[:])
+}
+
+// GenBlob: the deterministic blob "len.seed" of the compact new-slice token N:<len.seed>+<len.seed>...
+func GenBlob(n, seed int) string {
+	b := make([]byte, n)
+	for i := range b {
+		b[i] = byte((seed*31 + i*7 + (i>>8)*13) % 251)
+	}
+	return string(b)
+}
+
+// BlobSpec expands "len.seed+len.seed+..." .
+func BlobSpec(spec string) string {
+	var sb strings.Builder
+	for _, part := range strings.Split(spec, "+") {
+		f := strings.SplitN(part, ".", 2)
+		if len(f) != 2 {
+			continue
+		}
+		n, _ := strconv.Atoi(f[0])
+		sd, _ := strconv.Atoi(f[1])
+		sb.WriteString(GenBlob(n, sd))
+	}
+	return sb.String()
 }
 
 // KeyStaysInside: would the pinned pathForKey (no escaping) keep this key's path inside parent?
 // A safety guard of the harness only: hostile keys must not touch anything outside the sandbox.
 func KeyStaysInside(parent, base, shard, key string) bool {
 	shards := []string{base}
+	shard = ShardOf(shard)
 	if Safely(func() error { ShardFns[shard](key, &shards); return nil }) != nil {
 		return false
 	}
